@@ -1,4 +1,98 @@
-(* C08 - formatting never changes what a template renders. *)
+(* C08 - formatting never changes what a template renders.
+   Statements over the executable formatter model (model/Fmt.v): reparse = the tree the parser rebuilds from the text
+   printed by fmt_write; both are tied to the real formatter by the harness on every run.  What a format/parse round trip
+   can change is (1) layout flags, white-space nodes and trailing-space marks - nothing else (C08_reparse_only_changes_layout)
+   - and (2) through the trailing-space marks, the generator's inter-node space decisions: preserved under a decidable
+   guard, refuted without it.  This file holds statements only; each is closed by [exact]. *)
 From Coq.Strings Require Import Byte String.
-From Coq Require Import List Arith.
-From V Require Import lib.Bytes.
+From Coq Require Import List Arith Bool.
+Import ListNotations.
+From V Require Import lib.Bytes model.Fmt model.FmtReasons spec.FmtSpec proofs.FmtProof proofs.FmtSemProof.
+
+Definition mk (ch : list node) : file := {| f_header := []; f_pkg := bs "package p"; f_nodes := [FTempl (bs "t()") ch] |}.
+
+(* ---------- a format/parse round trip changes layout only ---------- *)
+(* For every file: after erasing IndentAttrs/IndentChildren/GoCode-multiline flags, white-space nodes and trailing-space
+   marks, the re-parsed tree equals the original: element names, attributes and their values, texts, expressions, order
+   and nesting are untouched. *)
+Theorem C08_reparse_only_changes_layout : forall f : file, erase_layout (reparse f) = erase_layout f.
+Proof. exact reparse_only_changes_layout. Qed.
+Print Assumptions C08_reparse_only_changes_layout.
+
+(* non-vacuity: reparse does change the tree (so the statement is not an identity), erase_layout keeps content apart
+   (two files that differ in one text stay different), and it is the identity on a tree without layout marks *)
+Definition c08_a := mk [NElem (bs "div") [AConst (bs "id") (bs "x") false false] false [NCallT (bs "foo()"); NWs; NText (bs "a") SpHoriz] false SpVert].
+Definition c08_b := mk [NElem (bs "div") [AConst (bs "id") (bs "x") false false] false [NCallT (bs "foo()"); NWs; NText (bs "b") SpHoriz] false SpVert].
+Example C08_ex_layout : reparse c08_a <> c08_a /\ erase_layout (reparse c08_a) = erase_layout c08_a
+  /\ erase_layout c08_a <> erase_layout c08_b
+  /\ erase_layout c08_a = mk [NElem (bs "div") [AConst (bs "id") (bs "x") false false] false [NCallT (bs "foo()"); NText (bs "a") SpNone] false SpNone].
+Proof. repeat split; vm_compute; try reflexivity; intro H; inversion H. Qed.
+
+(* ---------- the generator's space rule ---------- *)
+(* gen_spaces lists, in document order, whether the generated code writes a space after each node (generator.go: the
+   node's TrailingSpace is not None and both it and its follower are inline-or-text).  For every file without a tight
+   block follower the list is the same before and after a format/parse round trip. *)
+Theorem C08_space_rule_partial : forall f : file, trailing_semantics_preserved f = true -> gen_spaces (reparse f) = gen_spaces f.
+Proof. exact space_rule_partial. Qed.
+Print Assumptions C08_space_rule_partial.
+
+(* the guard is exact: for every file whose templates nest at most 200 deep (the model's fuel), the space decisions
+   survive the round trip if and only if there is no tight block follower - each one adds exactly one space *)
+Theorem C08_space_rule_exact : forall f : file, shallow f = true ->
+  (gen_spaces (reparse f) = gen_spaces f <-> trailing_semantics_preserved f = true).
+Proof. exact space_rule_exact. Qed.
+Print Assumptions C08_space_rule_exact.
+
+(* non-vacuity: the guard holds on a tree with inline runs, if/else, br, {{ }}, a call block; four spaces are emitted *)
+Definition c08_ok := mk [NElem (bs "div") [AConst (bs "id") (bs "x") false false; AExpr (bs "class") [bs "c"]] false
+   [NText (bs "Hello,") SpHoriz; NElem (bs "b") [] false [NStr (bs "name") SpNone] false SpHoriz; NText (bs "and") SpHoriz; NElem (bs "i") [] false [NText (bs "you") SpNone] false SpVert;
+    NIf (bs "ok") [NElem (bs "span") [] false [NText (bs "yes") SpNone] false SpVert] [] [NCallT (bs "no()")];
+    NElem (bs "br") [] false [] false SpVert; NGoCode (bs "x := 1") false SpVert] true SpVert; NCall [bs "wrap()"] [bs "wrap()"] [NChildren]].
+Example C08_ex_guard : trailing_semantics_preserved c08_ok = true
+  /\ gen_spaces c08_ok = [false; true; true; false; true; true; false; false; false; false; false; false; false; false; false].
+Proof. split; vm_compute; reflexivity. Qed.
+
+(* refutation without the guard (known defect): <p><b>a</b>if c { x }</p> - <b> has no trailing space; the formatter puts
+   the if on its own line (isBlockNode), the parser reads <b>a</b> back with TrailingSpace = Vertical, and the generator,
+   for which if/for/switch are inline (isInlineOrText), now writes a space: <b>a</b>x becomes <b>a</b> x.  The printed
+   layout itself is a fixed point (no C09 cause). *)
+Definition c08_tight_if := mk [NElem (bs "p") [] false [NElem (bs "b") [] false [NText (bs "a") SpNone] false SpNone; NIf (bs "c") [NText (bs "x") SpVert] [] []] true SpVert].
+Lemma C08_witness_tight_if :
+  fmt_write c08_tight_if = (bs "package p
+
+templ t() {
+	<p>
+		<b>a</b>
+		if c {
+			x
+		}
+	</p>
+}
+") /\
+  unstable_reasons c08_tight_if = [] /\ trailing_semantics_preserved c08_tight_if = false /\
+  gen_spaces c08_tight_if = [false; false; false; false; false] /\
+  gen_spaces (reparse c08_tight_if) = [false; true; false; false; false].
+Proof. repeat split; vm_compute; reflexivity. Qed.
+
+(* same with a multi-line inline element as follower: <p><b>a</b><span>(line break) x (line break)</span></p> *)
+Definition c08_tight_ml := mk [NElem (bs "p") [] false [NElem (bs "b") [] false [NText (bs "a") SpNone] false SpNone; NElem (bs "span") [] false [NText (bs "x") SpVert] true SpVert] true SpVert].
+Lemma C08_witness_tight_multiline_inline :
+  fmt_write c08_tight_ml = (bs "package p
+
+templ t() {
+	<p>
+		<b>a</b>
+		<span>
+			x
+		</span>
+	</p>
+}
+") /\
+  trailing_semantics_preserved c08_tight_ml = false /\
+  gen_spaces c08_tight_ml = [false; false; false; false; false] /\
+  gen_spaces (reparse c08_tight_ml) = [false; true; false; false; false].
+Proof. repeat split; vm_compute; reflexivity. Qed.
+
+Theorem C08_space_rule_refuted : exists f : file, unstable_reasons f = [] /\ gen_spaces (reparse f) <> gen_spaces f.
+Proof. exists c08_tight_if. split; [vm_compute; reflexivity|vm_compute; discriminate]. Qed.
+Print Assumptions C08_space_rule_refuted.
